@@ -785,6 +785,8 @@ class Interp(object):
                 return 1.7976931348623157e308 if last == 'MAX' else -1.7976931348623157e308
             if last in consts:
                 return consts[last]
+        if head == 'Ordering' and last in ('Less', 'Equal', 'Greater'):
+            return EV('Ordering', last)
         if self.p.is_type(head) or head in ('Option', 'Result', 'String', 'Vec'):
             return ('$fnref', [head, last])
         raise Unanalysable('path %s (line %s)' % ('::'.join(segs), e.get('ln')))
@@ -1235,6 +1237,18 @@ class Interp(object):
             raise ReturnEx(NONE)
         raise Unanalysable('? on %s' % type(v).__name__)
 
+    def e_matches(self, e, frame, hint):
+        v = self.eval(e['e'], frame)
+        frame.push()
+        try:
+            if self.bind(e['pat'], v, frame):
+                if e.get('guard') is not None:
+                    return bool(self.eval(e['guard'], frame))
+                return True
+            return False
+        finally:
+            frame.pop()
+
     def e_let(self, e, frame, hint):
         raise Unanalysable('let expression outside if/while')
 
@@ -1481,6 +1495,12 @@ class Interp(object):
 
     def e_mcall(self, e, frame, hint):
         name = e['m']
+        if name in ('push_str', 'push') and e['recv'].get('k') == 'path' and len(e['recv']['segs']) == 1:
+            cur = frame.lookup(e['recv']['segs'][0], None)
+            if isinstance(cur, str):
+                arg = self.eval(e['args'][0], frame)
+                frame.set(e['recv']['segs'][0], cur + (arg.c if isinstance(arg, Char) else self.display(arg)))
+                return UNIT
         recv = self.eval(e['recv'], frame, hint if name in ('unwrap', 'expect', 'unwrap_or', 'clone', 'abs') else None)
         fn = None
         if isinstance(recv, (SV, EV)):
@@ -1499,6 +1519,16 @@ class Interp(object):
 
     def mcall(self, recv, name, args, hint, tf, e=None):
         ln = e.get('ln') if e else None
+        if isinstance(recv, EV) and recv.ty == 'Ordering':
+            if name in ('is_lt', 'is_le', 'is_gt', 'is_ge', 'is_eq', 'is_ne'):
+                return {'is_lt': recv.var == 'Less', 'is_le': recv.var != 'Greater', 'is_gt': recv.var == 'Greater', 'is_ge': recv.var != 'Less',
+                        'is_eq': recv.var == 'Equal', 'is_ne': recv.var != 'Equal'}[name]
+            if name == 'reverse':
+                return EV('Ordering', {'Less': 'Greater', 'Greater': 'Less', 'Equal': 'Equal'}[recv.var])
+            if name == 'then':
+                return recv if recv.var != 'Equal' else args[0]
+            if name in ('eq', 'ne'):
+                return (recv == args[0]) == (name == 'eq')
         if isinstance(recv, (SV, EV)):
             q = '%s::%s' % (recv.ty, name)
             if q in self.overrides:
@@ -1599,6 +1629,30 @@ class Interp(object):
             raise Unanalysable('push_str needs place semantics')
         if name == 'repeat':
             return s * as_num(a[0])
+        if name == 'char_indices':
+            out, off = [], 0
+            for c in s:
+                out.append((RInt(off, 'usize'), Char(c)))
+                off += len(c.encode('utf-8'))
+            return Iter(out)
+        if name == 'strip_prefix':
+            return Opt(s[len(a[0]):]) if s.startswith(a[0]) else NONE
+        if name == 'strip_suffix':
+            return Opt(s[:-len(a[0])]) if a[0] and s.endswith(a[0]) else NONE
+        if name == 'split_at':
+            i = as_num(a[0])
+            return (utf8_slice(s, 0, i), utf8_slice(s, i, None))
+        if name == 'lines':
+            return Iter(s.split('\n'))
+        if name == 'rfind':
+            pat = a[0].c if isinstance(a[0], Char) else a[0]
+            i = s.rfind(pat)
+            return NONE if i < 0 else Opt(RInt(len(s[:i].encode('utf-8')), 'usize'))
+        if name == 'matches':
+            pat = a[0].c if isinstance(a[0], Char) else a[0]
+            return Iter([pat] * s.count(pat))
+        if name == 'is_char_boundary':
+            return is_char_boundary(s.encode('utf-8'), as_num(a[0]))
         if name == 'to_uppercase':
             return s.upper()
         if name == 'to_lowercase':
@@ -1684,8 +1738,12 @@ class Interp(object):
             return x.v > 0
         if name == 'is_negative':
             return x.v < 0
-        if name == 'cmp' or name == 'partial_cmp':
-            raise Unanalysable('Ordering values')
+        if name == 'cmp':
+            o = as_num(a[0])
+            return EV('Ordering', 'Less' if x.v < o else ('Greater' if x.v > o else 'Equal'))
+        if name == 'partial_cmp':
+            o = as_num(a[0])
+            return Opt(EV('Ordering', 'Less' if x.v < o else ('Greater' if x.v > o else 'Equal')))
         if name == 'clamp':
             return RInt(max(as_num(a[0]), min(as_num(a[1]), x.v)), t)
         raise Unanalysable('int method %s (line %s)' % (name, ln))
@@ -1822,6 +1880,26 @@ class Interp(object):
         if name == 'sort':
             l.sort(key=self.ordkey)
             return UNIT
+        if name == 'sort_by_key':
+            l.sort(key=lambda x: self.ordkey(self.call_value(a[0], [x])))
+            return UNIT
+        if name == 'sort_by':
+            import functools
+
+            def cmpf(x, y):
+                r = self.call_value(a[0], [x, y])
+                return {'Less': -1, 'Equal': 0, 'Greater': 1}[r.var]
+            l.sort(key=functools.cmp_to_key(cmpf))
+            return UNIT
+        if name == 'dedup':
+            out = []
+            for x in l:
+                if not out or not self.values_equal(out[-1], x):
+                    out.append(x)
+            l[:] = out
+            return UNIT
+        if name == 'iter().rev':
+            return Iter(l[::-1])
         if name == 'swap':
             i, j = as_num(a[0]), as_num(a[1])
             l[i], l[j] = l[j], l[i]
@@ -2048,7 +2126,28 @@ class Interp(object):
             return UNIT
         if name == 'clone':
             return dict(d)
+        if name == 'entry':
+            return EntryV(d, a[0])
+        if name == 'get_mut':
+            k = hkey(a[0])
+            return Opt(d[k][1]) if k in d else NONE
+        if name == 'get_or_insert_with':
+            raise Unanalysable('HashMap::get_or_insert_with')
         raise Unanalysable('HashMap method %s (line %s)' % (name, ln))
+
+    def m_EntryV(self, en, name, a, hint, tf, ln):
+        k = hkey(en.key)
+        if name in ('or_insert', 'or_insert_with', 'or_default'):
+            if k not in en.d:
+                if name == 'or_insert':
+                    v = a[0]
+                elif name == 'or_insert_with':
+                    v = self.call_value(a[0], [])
+                else:
+                    raise Unanalysable('or_default')
+                en.d[k] = (en.key, v)
+            return en.d[k][1]
+        raise Unanalysable('Entry method %s' % name)
 
     def m_CellV(self, c, name, a, hint, tf, ln):
         if name in ('borrow', 'borrow_mut', 'get', 'get_mut', 'into_inner'):
@@ -2125,6 +2224,14 @@ class Interp(object):
 
     def m_Closure(self, c, name, a, hint, tf, ln):
         raise Unanalysable('closure method %s' % name)
+
+
+class EntryV(object):
+    __slots__ = ('d', 'key')
+
+    def __init__(self, d, key):
+        self.d = d
+        self.key = key
 
 
 class PyGroup(object):
